@@ -50,6 +50,16 @@ def holdoutInit {α} (draw : Nat → Nat) (p run : Nat) (s : Sets α) : Sets α 
     let sh := shuffleTail draw (n - skip) (n - 1) s.tr
     ⟨sh.take skip, s.va ++ sh.drop skip⟩
 
+/-- result of `holdout_validation::init`: the sets and the number of `eva_t_->clear()` calls -/
+structure HRes (α : Type) where
+  st : Sets α
+  clears : Nat
+
+/-- `holdout_validation::init(run)` with the optional training evaluator (`hasEva` = the pointer is
+    non-null): cached fitness values are dropped after the split (run 0 only). -/
+def holdoutInitR {α} (draw : Nat → Nat) (p run : Nat) (hasEva : Bool) (s : Sets α) : HRes α :=
+  ⟨holdoutInit draw p run s, if run = 0 ∧ hasEva = true then 1 else 0⟩
+
 /-! ## dynamic subset selection -/
 
 /-- A `dataframe::example`: `id` stands for the payload `(input, output)`. -/
@@ -62,15 +72,23 @@ deriving DecidableEq, Repr
 abbrev St := Sets Ex
 
 def Ex.reset (e : Ex) : Ex := { e with age := 1, diff := 0 }
-def Ex.older (e : Ex) : Ex := { e with age := e.age + 1 }
+/-- `++e.age` on an `unsigned`: wraps at 2^32 -/
+def Ex.older (e : Ex) : Ex := { e with age := (e.age + 1) % 2 ^ 32 }
 
 /-- `dss::reset_age_difficulty` -/
 def resetAD (l : List Ex) : List Ex := l.map Ex.reset
 /-- `for_each(…, inc_age)` in `dss::shake` -/
 def incAge (l : List Ex) : List Ex := l.map Ex.older
 
-/-- `weight(example)` (unnamed namespace of dss.cc) -/
+/-- `weight(example)` (unnamed namespace of dss.cc) over the naturals (no wrap) -/
 def weight (e : Ex) : Nat := e.diff + e.age * e.age * e.age
+
+/-- `weight(example)` as the machine computes it: every operation in `std::uintmax_t` (64 bits) -/
+def weight64 (e : Ex) : Nat :=
+  (e.diff % 2 ^ 64 + (e.age % 2 ^ 64 * (e.age % 2 ^ 64) % 2 ^ 64 * (e.age % 2 ^ 64)) % 2 ^ 64) % 2 ^ 64
+
+/-- `std::accumulate(begin, end, std::uintmax_t(0), s + weight(e))` -/
+def weightSum64 (l : List Ex) : Nat := l.foldl (fun s e => (s + weight64 e) % 2 ^ 64) 0
 
 /-- `dss::move_to_validation` -/
 def moveToValidation (s : St) : St := ⟨[], s.va ++ s.tr⟩
